@@ -75,8 +75,11 @@ PassedBy(p) == {execs[i].w : i \in {j \in ExecIdx : execs[j].t = p /\ execs[j].s
                \cup {T.prev[i].w : i \in {j \in 1..Len(T.prev) : T.prev[j].t = p /\ T.prev[j].s \in OKStatus}}
 
 \* ---- C01: a required state is available where the test was told to look, or its producer failed in this run
-Avail(w, g) == \/ ("own" \in SeqToSet(T.poolscope) /\ g.s \in pool[w])
-               \/ \E k \in 1..Len(g.src) : g.src[k] \in Locs /\ g.s \in pool[g.src[k]]
+\* the reuse scope a location falls into for worker w, and the scopes enabled for the starting test
+SrcScope(w, x) == IF x = Shared THEN "shared" ELSE IF x = w THEN "own" ELSE IF Swarm[x] = Swarm[w] THEN "swarm" ELSE "cluster"
+Enabled == IF Len(E.scope) > 0 THEN SeqToSet(E.scope) ELSE SeqToSet(T.poolscope)
+Avail(w, g) == \/ ("own" \in Enabled /\ g.s \in pool[w])
+               \/ \E k \in 1..Len(g.src) : g.src[k] \in Locs /\ SrcScope(w, g.src[k]) \in Enabled /\ g.s \in pool[g.src[k]]
 \* a required state nobody in the graph produces is only acceptable for permanent objects (externally provided)
 Excused(g) == g.perm \/ (Producer(g.s) # "none" /\ FailedThisRun(Producer(g.s)))
 StartOK(w) == \A k \in 1..Len(E.gets) : LET g == E.gets[k] IN
